@@ -28,7 +28,8 @@ def covered(p, d, ivs):
 
 def RI(d, ds, cs, Fc, flen, ivs, Vx):
     p = z3.Int("p!ri")
-    basic = [d >= 0, ds >= 0, ds <= cs] + [z3.And(s <= e, e >= d, s >= 0) for (s, e) in ivs]
+    # the temporary file never extends past the current size: close() uploads the WHOLE temporary file
+    basic = [d >= 0, ds >= 0, ds <= cs, flen <= cs] + [z3.And(s <= e, e >= d, s >= 0) for (s, e) in ivs]
     content = z3.ForAll([p], z3.Implies(z3.And(p >= 0, p < cs),
                                         z3.If(covered(p, d, ivs), z3.And(p < flen, z3.Select(Fc, p) == z3.Select(Vx, p)),
                                               z3.And(p < ds, z3.Select(Vx, p) == z3.Select(O, p)))))
